@@ -8,7 +8,7 @@ abbrev World := Chain → State
 
 def Core.init (name : Chain) : Core :=
   { name := name, ps := PStore.empty, clients := fun _ => none, rules := none,
-    relayers := fun _ => [], authority := "gov", now := 0, evlog := [] }
+    relayers := fun _ => [], authority := "gov", now := 0, evlog := [], sent := [], ackLog := [] }
 
 def State.init (name : Chain) : State :=
   { core := Core.init name, nft := NftMod.empty, nftTraces := fun _ => none,
